@@ -790,7 +790,7 @@ theorem deep_good : ∀ (p : T), opLeaves p = true → ∀ (cm : Bool) (pf : Str
       match kids, hIH, hop, hpre, hflex, hm with
       | [l, op, r], hIH, hop, hpre, hflex, hm =>
         simp only at hm
-        cases hsh : shallowMatch cm pf pp (T.mk k f fl [l, op, r]) sp s with
+        cases hsh : shallowMatch false pf pp (T.mk k f fl [l, op, r]) sp s with
         | none => simp [hsh] at hm
         | some b =>
           simp only [hsh] at hm
